@@ -18,6 +18,7 @@ func init() {
 		c19Cancelled(c, "C07.9") // a cancelled deadline does not fire, a Refresh does not revive it
 		v3BinaryPayloadCodec(c, "C07.11", true)
 		c19RefreshOnlyLive(c, "C07.12")
+		c19AtomicDeadlineReplace(c, "C07.13")
 		c03CloseEpilogue(c) // C07.6: both timers are cleared before the close event (C03.3)
 		c07ClearTransport(c)
 		c19WhoClears(c) // C07.7: nobody else cancels the heartbeat timers
